@@ -181,7 +181,7 @@ CLAIMED = {
         "technique": "Coq proof (frame lemma over identity-addressed targets) + differential correspondence",
     },
     "C08": {
-        "text": ("16 theorems (Coq, no axioms) over the parser/printer models (the same models C14 ties to the code): "
+        "text": ("25 theorems (Coq, no axioms) over the parser/printer models (the same models C14 ties to the code): "
                  "C08_parse_render - for every well-formed segment list of every kind (KEY escaped or quoted, index, "
                  "slice, anchor, all nine search operators with inversion and quoted/escaped terms - also quoted with "
                  "nested pairs of the other quote - and regex "
@@ -191,8 +191,16 @@ CLAIMED = {
                  "segments in either notation and is a fixed point (guards: wfc, and the property's own exclusion "
                  "of dot texts that begin with '/'); == is the comparison of the parsed segments for ANY two texts "
                  "that parse (C08_eq_parsed) and == iff equal segments on the writer's texts (guards wf and the "
-                 "exclusion only); append-then-pop restores the path for tails written after a separator "
-                 "(other tails are judged on the real code only).  Both halves of finding F21 (an escaped or "
+                 "exclusion only); append-then-pop restores the segments of the path for EVERY kind and style of tail "
+                 "(C08_append_pop_all_partial; C08_appended_parse characterises the text append writes for a tail "
+                 "with its own demarcation, e.g. x.[0], and its parse - the intersection collector &(b) reads as (b) "
+                 "after a separator; the guard 'canonical tail or no suffix match' is discharged; guards left: wfc, "
+                 "the exclusion, a non-blank rebuilt dot text) and the path TEXT when the tail is canonical; "
+                 "__add__ is append on a copy (C08_add_is_append_on_copy); strip_path_prefix gives the remaining "
+                 "segments when the remainder starts with a key / * / ** (C08_strip_prefix_partial, _root, _other; "
+                 "C08_strip_prefix_refuted: a remainder starting with a bracket is re-read in dot notation, and a "
+                 "prefix of the TEXT that is no prefix of the segments is stripped - outside the property text, "
+                 "reported).  Both halves of finding F21 (an escaped or "
                  "regex search term that starts and ends with the same quote was stripped of them by the parser; "
                  "str() did not escape the quotes of a term) and finding F23 (== compared texts in which an escaped "
                  "dot kept its back-slash) are repaired: no listed finding is left, the former witnesses are "
